@@ -199,3 +199,167 @@ def EL(inp, N, k):
     cl = {'no_exception': exc is None}
     cl['at_most_one_leader_in_the_term'] = len(leaders) <= 1
     return Res(cl, nontrivial=len(leaders) == 1 and len(order) > 0, obs=lambda: dict(N=N, roles=roles, voted=voted, delivered=order, leaders=leaders, exc=show(exc)))
+
+
+@obligation('CM', props=('C04', 'C01'), quick=[dict(nl=3), dict(nl=4)], thorough=[dict(nl=3), dict(nl=4), dict(nl=5)], stubs=_STUBS,
+            bounds='three real nodes: leader log <=5 entries, two followers with logs of the same length bound related to the leader log by Log Matching with any agreement lengths; matchIndex of each follower any value not above its agreement length (RL2); one leader tick')
+def CM(inp, nl):
+    """commit-time majority (the property's own sentence): at the very step the leader's commit index advances to c, the
+    entry (c, term) is stored in the logs a strict majority of the three voters hold at that step."""
+    now = inp.real('now', 0)
+    clock = so.Clock(now)
+    lead, ltr = so.make('a', ['b', 'c'], clock, inp)
+    t = inp.int('t', 1, T_HI)
+    lt = [0] + [inp.int('lt%d' % i, 0, T_HI) for i in range(1, nl)]
+    for i in range(1, nl):
+        inp.assume(lt[i] >= lt[i - 1])
+    inp.assume(lt[-1] <= t)
+    llog = [(so.NOOP, 1 + i, lt[i]) for i in range(nl)]
+    so.set_log(lead, llog)
+    ci = inp.int('commit', 1, nl)
+    put(lead, 'raftCurrentTerm', t); put(lead, 'raftState', L); put(lead, 'raftLeader', Node('a'))
+    put(lead, 'raftCommitIndex', ci); put(lead, 'raftLastApplied', ci); put(lead, 'newAppendEntriesTime', now + 10)
+    flogs = {}
+    for x in ('b', 'c'):
+        nf = inp.choice('len_' + x, nl) + 1
+        ft = [0] + [inp.int('%st%d' % (x, i), 0, T_HI) for i in range(1, nf)]
+        for i in range(1, nf):
+            inp.assume(ft[i] >= ft[i - 1])
+        g = inp.int('agree_' + x, 1, nl)
+        inp.assume(g <= nf)
+        for i in range(min(nl, nf)):
+            inp.assume(Iff(Eq(lt[i], ft[i]), (i + 1) <= g))
+        flogs[x] = [(so.NOOP, 1 + i, ft[i]) for i in range(nf)]
+        m = inp.int('match_' + x, 0, nl)
+        inp.assume(m <= g)                        # RL2: what the leader counts for a follower, the follower holds
+        nd = Node(x)
+        get(lead, 'raftMatchIndex')[nd] = m
+        get(lead, 'raftNextIndex')[nd] = m + 1
+        get(lead, 'lastResponseTime')[nd] = now
+        get(lead, 'connectedNodes').add(nd)
+    _, exc = guard(lead._onTick, 0.0)
+    c1 = lead.raftCommitIndex
+    holders = 1 + Count([so.has_entry(flogs[x], c1, so.term_at(llog, c1)) for x in ('b', 'c')])
+    cl = {'no_exception': exc is None}
+    cl['committed_entry_held_by_a_majority_at_that_step'] = Implies(c1 > ci, 2 * holders > 3)
+    cl['committed_entry_is_of_the_current_term'] = Implies(c1 > ci, Eq(so.term_at(llog, c1), t))
+    cl['commit_monotone'] = c1 >= ci
+    return Res(cl, nontrivial=c1 > ci, obs=lambda: dict(nl=nl, commit=(show(ci), show(c1)), flens={x: len(v) for x, v in flogs.items()}, exc=show(exc)))
+
+
+from pvf import cmds as _cmds                                  # noqa: E402
+from pvf.obligations.apply import Acc as _Acc, Rec as _Rec      # noqa: E402
+from pysyncobj.config import FAIL_REASON as _FR                # noqa: E402
+
+
+@obligation('CB5', props=('C02', 'C01'), quick=[dict()], stubs=_STUBS + ('pysyncobj.syncobj.pickle=FakePickle',),
+            bounds='follower b submits add(x) (x symbolic) through leader a (term symbolic); a third node c becomes leader of the next term at any of 5 points of the pipeline submit -> forward -> append -> reply -> replicate -> commit -> apply; c either overwrites the position with its own command or has adopted the command (case split)')
+def CB5(inp):
+    """callback contract along the whole forwarding pipeline with a leader change inserted anywhere: the submitter's callback fires
+    at most once at every point and exactly once in the end; SUCCESS only if the command is the one applied at its position on the
+    submitter (with that execution's result); if another command took the position the callback never reports SUCCESS."""
+    now = inp.real('now', 0)
+    clock = so.Clock(now)
+    fol, ftr = so.make('b', ['a', 'c'], clock, inp, cls=_Acc)
+    lead, ltr = so.make('a', ['b', 'c'], clock, inp, cls=_Acc)
+    _cmds.install(inp)
+    a, b, c = Node('a'), Node('b'), Node('c')
+    t = inp.int('t', 1, 3)
+    x = inp.int('x', 1, 5)
+    for o in (fol, lead):
+        so.set_log(o, [(so.NOOP, 1, 0), (so.NOOP, 2, t)])
+        put(o, 'raftCurrentTerm', t); put(o, 'raftCommitIndex', 2); put(o, 'raftLastApplied', 2); put(o, 'raftElectionDeadline', now + 100)
+    put(lead, 'raftState', L); put(lead, 'raftLeader', a); put(lead, 'newAppendEntriesTime', now + 100)
+    for nd in (b, c):
+        get(lead, 'raftNextIndex')[nd] = 3; get(lead, 'raftMatchIndex')[nd] = 2; get(lead, 'lastResponseTime')[nd] = now
+    get(lead, 'connectedNodes').add(b)
+    put(fol, 'raftLeader', a); get(fol, 'connectedNodes').add(a); get(fol, 'connectedNodes').add(c)
+    rec = _Rec('cb')
+    cmd = _cmds.regular(inp, fol._methodToID['add_v0'], (x,))
+    other = _cmds.regular(inp, fol._methodToID['add_v0'], (x + 10,))
+    k = inp.choice('change_at', 6) + 1             # after step 0..4, or 6 = no leader change at all (a change before the submission is just a submission to another leader)
+    adopt = inp.flag('new_leader_has_the_command')
+    via_vote = inp.flag('candidate_first')          # c first asks b for its vote (b's term advances, pending replies are not cancelled), its append_entries comes after the pipeline
+    recvF, recvL = getattr(fol, P + 'onMessageReceived'), getattr(lead, P + 'onMessageReceived')
+    state = dict(changed=False, exc=None, max_calls=0)
+
+    def guard_(f, *args):
+        if state['exc'] is None:
+            _, state['exc'] = guard(f, *args)
+        state['max_calls'] = max(state['max_calls'], len(rec.calls))
+
+    def leader_change():
+        """c, leader of term t+1, reaches b: either it holds a's entry at index 3 (then its own no-op at 4) or its own command at 3"""
+        state['changed'] = True
+        if via_vote and not state.get('voted'):
+            state['voted'] = True
+            guard_(recvF, c, {'type': 'request_vote', 'term': t + 1, 'last_log_index': 9, 'last_log_term': t})
+            state['final_commit'] = None
+            return
+        flog = so.log_of(fol)
+        has3 = len(flog) >= 3
+        if adopt and has3:
+            ents = [(so.NOOP, 4, t + 1)]
+            guard_(recvF, c, {'type': 'append_entries', 'term': t + 1, 'commit_index': 2, 'prevLogIdx': 3, 'prevLogTerm': t, 'entries': ents})
+            state['final_commit'] = 4
+        else:
+            ents = [(other, 3, t + 1)]
+            guard_(recvF, c, {'type': 'append_entries', 'term': t + 1, 'commit_index': 2, 'prevLogIdx': 2, 'prevLogTerm': t, 'entries': ents})
+            state['final_commit'] = 3
+
+    def flush(src_tr, pos, dst_recv, sender):
+        msgs = src_tr.sent[pos[0]:]
+        pos[0] = len(src_tr.sent)
+        for nd, m in msgs:
+            if (dst_recv is recvL and nd == a) or (dst_recv is recvF and nd == b):
+                guard_(dst_recv, sender, m)
+
+    fpos, lpos = [0], [0]
+    steps = [
+        lambda: (guard_(fol._applyCommand, cmd, rec), guard_(fol._checkCommandsToApply)),                       # submit + forward
+        lambda: (flush(ftr, fpos, recvL, b), guard_(lead._checkCommandsToApply)),                               # leader appends, replies
+        lambda: flush(ltr, lpos, recvF, a),                                                                     # reply reaches the submitter
+        lambda: (guard_(getattr(lead, P + 'sendAppendEntries')), flush(ltr, lpos, recvF, a)),                  # replicate
+        lambda: (flush(ftr, fpos, recvL, b), guard_(lead._onTick, 0.0)),                                        # ack, leader commits
+        lambda: (guard_(getattr(lead, P + 'sendAppendEntries')), flush(ltr, lpos, recvF, a), guard_(fol._onTick, 0.0)),   # commit reaches b, b applies
+    ]
+    for i, st in enumerate(steps):
+        if i == k:
+            leader_change()
+        st()
+    if state['changed'] and state.get('final_commit') is None:
+        put(lead, 'raftState', F)                       # a has lost the election meanwhile
+        leader_change()
+    if state['changed']:
+        fc = state['final_commit']
+        flog = so.log_of(fol)
+        guard_(recvF, c, {'type': 'append_entries', 'term': t + 1, 'commit_index': fc, 'prevLogIdx': flog[-1][1], 'prevLogTerm': flog[-1][2], 'entries': []})
+        guard_(fol._onTick, 0.0)
+    flog = so.log_of(fol)
+    at3 = flog[2][0] if len(flog) >= 3 else None
+    mine_applied = at3 is not None and at3 == cmd and bool(fol.raftLastApplied >= 3)
+    cl = {'no_exception': state['exc'] is None}
+    cl['never_more_than_one_call'] = state['max_calls'] <= 1 and len(rec.calls) <= 1
+    cl['exactly_one_call_in_the_end'] = len(rec.calls) == 1
+    if len(rec.calls) == 1:
+        res, err = rec.calls[0]
+        cl['success_only_if_applied_at_its_position'] = Implies(Eq(err, _FR.SUCCESS), mine_applied)
+        cl['success_carries_own_result'] = Implies(Eq(err, _FR.SUCCESS), Eq(res, x) if res is not None else False)
+        cl['overwritten_command_never_reports_success'] = Implies(not mine_applied, Not(Eq(err, _FR.SUCCESS)))
+        cl['no_leader_change_means_success'] = Implies(not state['changed'], Eq(err, _FR.SUCCESS))
+        # once the reply (index, term) has reached the submitter, a command applied at that position with that term is a SUCCESS
+        cl['applied_after_reply_means_success'] = Implies(k >= 3 and mine_applied and not via_vote, Eq(err, _FR.SUCCESS))
+    cl['submitter_state_is_fold_of_its_log'] = Eq(fol.total, Sum_applied(fol, flog, cmd, other, x))
+    return Res(cl, nontrivial=state['changed'], obs=lambda: dict(change_at=k, adopt=adopt, calls=show(rec.calls), applied=show(fol.raftLastApplied),
+                                                                 log=[(show(e[1]), show(e[2])) for e in flog], total=show(fol.total), exc=show(state['exc'])))
+
+
+def Sum_applied(fol, flog, cmd, other, x):
+    tot = 0
+    for e in flog:
+        if bool(e[1] <= fol.raftLastApplied):
+            if e[0] == cmd:
+                tot = tot + x
+            elif e[0] == other:
+                tot = tot + x + 10
+    return tot
